@@ -328,7 +328,7 @@ func main() {
 	rep := vh.NewReport(a, "dependency graphs over n declarations named A..H of kinds const/var/func/type/method rendered as Go source "+
 		"(edge i->j = a reference to j inside i: initialiser, var type, struct field / slice / func type, function signature or body, "+
 		"at block depth 0..3 chosen per edge); part 1 bounded-exhaustive: every digraph on n<=3 nodes x every kind assignment over {const,var,func,type}, "+
-		"every digraph on 4 nodes x 2 (quick) kind assignments [thorough: x 6, and every digraph on 5 nodes x 1 assignment, direct oracle on all, model on a 1/16 sample; quick: model on every second 4-node input]; "+
+		"every digraph on 4 nodes x 2 (quick) kind assignments [thorough: x 6, and every digraph on 5 nodes x 1 assignment, direct oracle on all (3 repetitions), model on a 1/64 sample; quick: model on every second 4-node input]; "+
 		"part 2 PRNG graphs with 5..12 declarations incl. methods, self references, package/import clauses and statements between declaration runs; "+
 		"part 3 corpus. Excluded classes (known findings): a local/parameter named like a declaration (F1); a reference from scope depth>=2 "+
 		"(function declaration signature/body, nested block or struct) to a name declared earlier in the text (F2). "+
@@ -365,6 +365,7 @@ func main() {
 		return
 	}
 
+	reps := r.reps
 	// part 3 first: corpus
 	for _, in := range loadCorpus() {
 		r.run(in, true)
@@ -403,15 +404,19 @@ func main() {
 					continue
 				}
 				nExh++
-				toModel := n <= 3 || (n == 4 && (a.Thorough() || mask%2 == 0)) || mask%16 == 3
+				toModel := n <= 3 || (n == 4 && (a.Thorough() || mask%2 == 0)) || mask%64 == 3
+				if n == 5 {
+					r.reps = 3
+				}
 				r.run(input{Src: src, Origin: fmt.Sprintf("exhaustive-n%d", n)}, toModel)
+				r.reps = reps
 			}
 		}
 	}
 	// part 2: random larger graphs
 	nRand := 1000
 	if a.Thorough() {
-		nRand = 40000
+		nRand = 20000
 	}
 	if a.N > 0 {
 		nRand = a.N
